@@ -172,7 +172,7 @@ def _eval(p):
 
 def run(ck):
     rng = ck.rng
-    n = ck.n(300, 10000)
+    n = ck.n(300, 4000)
     hists = [_gen_history(rng) for _ in range(n)]
     tot_states = 0
     tot_alias_checks = 0
